@@ -1014,6 +1014,7 @@ class Universe(object):
             self.calls += 1
             mon.cls("ill-typed-probe", (qual, idx, what))
             recv = copy.deepcopy(inst)
+            abefore = snap(a)
             try:
                 if recv is not None:
                     r = getattr(recv, target[3])(*a)
@@ -1021,11 +1022,15 @@ class Universe(object):
                     r = resolve(target)[1](*a)
                 else:
                     r = resolve(target)[0](*a)
-            except (TypeError, ValueError):
+            except (TypeError, ValueError, ZeroDivisionError):
                 mon.ok("illtyped->TypeError|ValueError")
-                continue
-            except ZeroDivisionError:
-                mon.ok("illtyped->TypeError|ValueError")
+                # a refused call has not touched the other arguments either
+                mon.check("args-unchanged", snap(a) == abefore,
+                          lambda: {"target": qual, "refused_probe": what,
+                                   "position": idx,
+                                   "before": repr(abefore)[:300],
+                                   "after": repr(snap(a))[:300]},
+                          key_args(qual))
                 continue
             except Exception as ex:
                 mon.dev("illtyped->TypeError|ValueError",
